@@ -553,7 +553,7 @@ def write_evidence(pid, tier, seed, coverage, assumptions, wall, violations):
 # a run stretched to just below / at / above 255, 1023, 4095, 8191 and 65535, and unusual-but-legal characters at the
 # start, at the end and in the middle of an argument.  They go through the same comparison as every other case.
 VAR_TEXT_OPS = {"pat.new", "pat.match", "pat.best", "dewey.new", "dewey.match", "pkgname", "sum.parse", "path.new", "dep.new", "dg.name", "md.from"}
-VAR_BYTE_OPS = {"stream", "di.parse", "di.roundtrip", "di.classify", "pl.parse", "pl.entry", "pl.query", "scan.readb"}
+VAR_BYTE_OPS = {"stream", "stream.cont", "di.parse", "di.roundtrip", "di.classify", "pl.parse", "pl.entry", "pl.query", "scan.readb"}
 VAR_FIRST_TEXT = {"scan.read"}
 BOUNDARY_LENGTHS = [254, 255, 256, 257, 1022, 1023, 1024, 1025, 4095, 4096, 4097, 8191, 8192, 8193, 65535, 65536, 65537]
 SPECIAL_TEXT = [0, 0x7F, 0x0B, 0x0C, 0x0D, 0x85, 0xA0, 0x2028, 0x2029, 0x3000, 0xFEFF, 0x0301, 0x1F600, 0x212A, 0x130, 0x17F, 0x663, 0xFF11, 0x200B]
